@@ -83,6 +83,19 @@ def run(rep, tier, seed, replay):
                 else:
                     rep.violation("oracle", "the displayed postfix of the partition does not rebuild into the same program (%s)" % tag, {"expr": e, "postfix": unhex(pf["post"])}, impl=pl[:300])
 
+    # ---- the constant constructors (Glob::empty, Glob::tree) and `any` over build results instead of text
+    if replay is None:
+        import random as _r
+        rng = _r.Random(seed + 19)
+        groups = [[rng.choice(exprs) for _ in range(rng.randint(1, 3))] for _ in range(300 if tier == "quick" else 3000)]
+        for g, line in zip(groups, h.ask(["K " + " ".join(hexs(e) for e in g) for g in groups])):
+            if line == "empty=same tree=same any-results=same":
+                rep.stats["Glob::empty = new(\"\"), Glob::tree = new(\"**\"), any(results) = any(text)"] += 1
+            else:
+                rep.violation("oracle", "a constant constructor differs from building its text, or any() over build results differs from any() over text",
+                              {"any": g, "what": "constructors"}, impl=line[:300])
+        rep.evaluations += len(groups)
+
     def ask(wit):
         if "route" in wit:
             line = h.ask(["V %s %s" % (hexs(wit["expr"]), hexs(wit["path"]))])[0]
